@@ -475,6 +475,8 @@ def generate(rng, idx, tier, variant):
         while k_ > 0 and ops[k_ - 1]['op'] not in ('solve_t', 'solve_period', 'solve1', 'solve', 'poke', 'copy', 'add_variable', 'edit_endogenous', 'eval'):
             k_ -= 1
         ops.insert(k_, {'op': 'edit_check', 'obj': rng.randrange(2) if two else 0, 'how': rng.choice(['append', 'append', 'remove', 'assign']), 'k': rng.randrange(6)})
+    if spec['kind'] == 'scripted' and rng.random() < 0.05:
+        spec['hookless_parent'] = True
     if rng.random() < 0.04:
         # another, hand-written model class without hooks of its own is used first in the same program: what the library
         # learns from it (at class or module level) is not this model's business
@@ -583,7 +585,22 @@ class BuildFailed(Exception):
 def build(fsic, spec, ctx=None):
     span = spans.make_span(spec['span'])
     if spec['kind'] == 'scripted':
-        cls = probes.make_scripted(fsic, spec)
+        if spec.get('hookless_parent'):
+            # the model's class extends a hand-written class that has no hooks of its own and that was used (solved) on its
+            # own earlier in the same program: what the library learnt from the parent is not the child's business
+            def _pev(self, t, **kw):
+                self._PV[t] = 0.5 * self._PV[t] + 1.0
+
+            Parent = type('HooklessParent', (fsic.BaseModel,), {'ENDOGENOUS': ['PV'], 'EXOGENOUS': [], 'PARAMETERS': [], 'ERRORS': [], 'NAMES': ['PV'], 'CHECK': ['PV'], 'LAGS': 0, 'LEADS': 0, '_evaluate': _pev})
+            try:
+                Parent(range(3)).solve(failures='ignore')
+            except Exception:  # noqa: BLE001
+                pass
+            cls = probes.make_scripted(fsic, spec, bases=(Parent,))
+            if ctx is not None:
+                ctx.probe('class-extends-a-hook-less-class-solved-earlier')
+        else:
+            cls = probes.make_scripted(fsic, spec)
         if spec.get('mixins'):
             table = probes.mixin_table()
             anyname = (spec['endo'] + spec['exo'] + ['status'])[0]
